@@ -336,7 +336,17 @@ def _mk():
 
     def b_str(it, a, k, n):
         v = a[0] if a else ""
-        return v if isinstance(v, str) else "<str>"
+        if isinstance(v, str):
+            return v
+        if isinstance(v, Obj) and v.cls is not None:
+            m = it.class_attr(v.cls, "__str__")
+            if isinstance(m, FuncV):
+                r = it.call_function(m, [v], {}, n)
+                if isinstance(r, str):
+                    return r
+        from .values import fmt as _fmt
+
+        return "{" + _fmt(A._term(v)) + "}"
 
     def b_type(it, a, k, n):
         v = a[0]
@@ -388,11 +398,18 @@ def _mk():
         return T("id", (A._term(a[0]),))
 
     def b_map(it, a, k, n):
+        from .values import OneShot
+
         f = a[0]
-        return [it.call_function(f, list(xs), {}, n) for xs in zip(*[seq_of(it, s) for s in a[1:]])]
+        return OneShot([it.call_function(f, list(xs), {}, n) for xs in zip(*[seq_of(it, s) for s in a[1:]])])
 
     def b_iter(it, a, k, n):
         return a[0]
+
+    def b_slice(it, a, k, n):
+        if all(x is None or isinstance(x, int) for x in a):
+            return slice(*a)
+        return T("slice", tuple(A._term(x) for x in a))
 
     table = {
         "len": b_len, "sum": b_sum, "prod": b_prod, "min": b_minmax("min"), "max": b_minmax("max"),
@@ -402,7 +419,7 @@ def _mk():
         "setattr": b_setattr, "reversed": b_reversed, "zip": b_zip, "enumerate": b_enumerate,
         "sorted": b_sorted, "str": b_str, "repr": b_str, "type": b_type, "callable": b_callable,
         "print": b_print, "any": b_any, "all": b_all, "round": b_round, "id": b_id, "map": b_map,
-        "iter": b_iter,
+        "iter": b_iter, "slice": b_slice,
     }
     out = {k: B(k, v) for k, v in table.items()}
     for exc in ("ValueError", "TypeError", "RuntimeError", "AssertionError", "KeyError", "IndexError",
